@@ -8,7 +8,7 @@ from pestverif.runner import Ctx
 
 ID = "C14"
 RULE = (
-    "every text over {a, e-acute, LF} up to the tier's length bound x every offset 0..len x every span a<=b "
+    "every text over {a, e-acute, LF, blank} up to the tier's length bound x every offset 0..len x every span a<=b "
     "(exhaustive), plus Hypothesis texts of up to 400 characters over all of Unicode minus the non-LF "
     "str.splitlines separators and surrogates; Pair.line_col() observed on real pairs from parsing "
     "`t = { c* } c = { ANY }`. A (text, offset) or (text, span) case is non-trivial when the text has >= 2 "
@@ -22,8 +22,8 @@ ASSUMPTIONS = [
     "accepted for an empty span); line_of(): accepted with or without the line terminator",
 ]
 
-BOUNDS = {"quick": {"maxlen": 8, "hyp": 150}, "thorough": {"maxlen": 10, "hyp": 2500}}
-ALPHABET = "aé\n"
+BOUNDS = {"quick": {"maxlen": 7, "hyp": 150}, "thorough": {"maxlen": 9, "hyp": 2500}}
+ALPHABET = "aé\n "
 
 
 def ref_line_col(text: str, p: int) -> tuple[int, int]:
